@@ -21,7 +21,9 @@ INSTANCE Runtime WITH Programs <- Progs
 
 tvars == <<prog, pv, stage, ep, doc, dec, ran, res, origin, l, fx>>
 
-NoFx == [via |-> "", env |-> <<>>, docj |-> <<>>, method |-> "", part |-> "", lastpv |-> <<>>, lastsv |-> "", lastdoc |-> <<>>, lastdec |-> NoDec, remote |-> <<>>]
+B == INSTANCE BuilderOps
+NoFx == [via |-> "", env |-> <<>>, docj |-> <<>>, method |-> "", part |-> "", lastpv |-> <<>>, lastsv |-> "", lastdoc |-> <<>>, lastdec |-> NoDec, remote |-> <<>>,
+         bld |-> B!NoBuilder]
 
 ProgIx(id) == CHOOSE i \in 1..Len(Progs) : Progs[i].id = id
 PartIx(q, pid) == CHOOSE i \in 1..Len(q.parts) : q.parts[i].id = pid
@@ -99,7 +101,7 @@ TrDeliver ==
                          ELSE MethodOf(P, E.part, E.method)
                IN RemoteSend(PartIx(P, pid), m)
     /\ Chk("BIND", "mt_flight_repeats_the_previous_document", l,
-           (E.via = "mt" /\ E.ep \notin Overridden(P)) => fx.lastdoc = E.doc)
+           (E.via = "mt" /\ E.ep \notin Overridden(P) /\ E.ep \in EpKinds(P)) => fx.lastdoc = E.doc)
     /\ fx' = [fx EXCEPT !.via = E.via, !.env = E.env, !.docj = E.doc, !.method = E.method, !.part = E.part,
                         !.lastdoc = E.doc]
 
@@ -148,7 +150,8 @@ TrStructDecode ==
 (* (silent step: the same document was decoded on the entry-point path just before) *)
 TrSilentDecode ==
     /\ stage = "delivered" /\ fx.via = "mt"
-    /\ IF ByOverride
+    /\ IF AbsentKind THEN AbsentReject
+       ELSE IF ByOverride
        THEN \* the user's function decodes its own message type: whether it accepted is read off the next event
             OverrideDecode(IF l <= Len(Rec) /\ Rec[l].ev = "Handler" THEN "ok" ELSE "err")
        ELSE IF ep \in EnumKinds
@@ -228,6 +231,9 @@ TrReturn ==
                    fx.via = "ep" => OutcomeOk(E, OwnerMethod))
             /\ Chk("C02", "handler_used_the_callers_storage", l,
                    E.mark = (IF ep = "query" THEN "" ELSE OwnerMethod.name))
+       ELSE IF dec.why = "absent"
+       THEN Chk("C04", "a_kind_without_a_handler_refuses_every_document_and_runs_nothing", l,
+                E.verdict = "err" /\ E.mark = "")
        ELSE /\ Chk("C03", "a_rejected_document_is_an_error_and_runs_nothing", l,
                    E.verdict = "err" /\ E.mark = "" /\ E.err.class \in {"decode", "std"})
     /\ UNCHANGED <<pv, fx>>
@@ -286,7 +292,37 @@ TrRemoteQueryReturn ==
            IF m.outcome = "ok" THEN E.verdict = "ok" /\ E.value = QRespJson(m) ELSE E.verdict = "err")
     /\ UNCHANGED <<prog, pv, stage, ep, doc, dec, ran, res, origin, fx>>
 
-TStep == TrBuild \/ TrSchemas \/ TrRemoteMsg \/ TrRemoteQueryReturn \/ TrReset \/ TrLists \/ TrEncode \/ TrDeliver \/ TrWrapperDecode \/ TrStructDecode
+(* ---- the builders behind the remote helpers, one event per call (C10, BuilderOps) ---- *)
+TrBuilderNew ==
+    /\ IsEvent("BuilderNew")
+    /\ stage \in {"idle", "returned"}
+    /\ Chk("BIND", "builder_target_is_known", l, E.target \in B!Targets)
+    /\ fx' = [fx EXCEPT !.bld = B!New(E.target)]
+    /\ UNCHANGED <<prog, pv, stage, ep, doc, dec, ran, res, origin>>
+TrBuilderSet ==
+    /\ IsEvent("BuilderSet")
+    /\ stage \in {"idle", "returned"}
+    /\ Chk("BIND", "setter_belongs_to_the_builder", l, fx.bld.target # "none" /\ [f |-> E.f, v |-> E.v] \in B!Setters(fx.bld.target))
+    /\ fx' = [fx EXCEPT !.bld = B!Set(fx.bld, E.f, E.v)]
+    /\ UNCHANGED <<prog, pv, stage, ep, doc, dec, ran, res, origin>>
+TrBuilderBuild ==
+    /\ IsEvent("BuilderBuild")
+    /\ stage \in {"idle", "returned"}
+    /\ Chk("BIND", "a_builder_exists", l, fx.bld.target # "none" /\ E.fin \in B!FinsOf(fx.bld.target))
+    /\ Chk("C10", "helper_builds_a_message", l, E.verdict = "ok")
+    /\ LET m == B!Msg(fx.bld, E.fin) IN
+       E.verdict = "ok" =>
+         /\ Chk("C10", "built_message_is_of_the_builders_kind", l, E.kind = m.kind)
+         /\ Chk("C10", "built_message_carries_the_funds_set_last", l, E.funds = m.funds)
+         /\ Chk("C10", "built_message_carries_the_label_set_last_or_none", l, E.label = m.label)
+         /\ Chk("C10", "built_message_carries_the_admin_set_last_or_none", l, E.admin = m.admin)
+         /\ Chk("C10", "built_message_is_salted_iff_built_with_a_salt", l, (E.salt # "") = m.salted /\ E.salt = E.salt_set)
+         /\ Chk("C10", "built_message_keeps_address_or_code_id", l,
+                IF fx.bld.target = "exec" THEN E.addr = E.handle_addr ELSE E.code_id = E.code_id_set)
+    /\ fx' = [fx EXCEPT !.bld = B!NoBuilder]
+    /\ UNCHANGED <<prog, pv, stage, ep, doc, dec, ran, res, origin>>
+
+TStep == TrBuilderNew \/ TrBuilderSet \/ TrBuilderBuild \/ TrBuild \/ TrSchemas \/ TrRemoteMsg \/ TrRemoteQueryReturn \/ TrReset \/ TrLists \/ TrEncode \/ TrDeliver \/ TrWrapperDecode \/ TrStructDecode
          \/ TrSilentDecode \/ TrOverrideHandler \/ TrHandler \/ TrReturn
 
 (* the design-level invariants of Runtime.tla, evaluated in every state the trace reaches *)
